@@ -349,7 +349,7 @@ func (sc *scenario) connect(user string, slot int) *conn {
 	id := fmt.Sprintf("b%ds%dc%d", sc.batch, sc.idx, sc.connCtr)
 	c, retries, err := dial(sc.srv, id)
 	if err != nil {
-		sc.run.Inconclusive("dial failed: " + err.Error())
+		sc.run.Undecided("dial failed: " + err.Error())
 		sc.bad = true
 		return nil
 	}
@@ -407,16 +407,16 @@ func (sc *scenario) join(cn *conn, g string) bool {
 	cn.ms = append(cn.ms, ms)
 	reply, ok := cn.c.Join(g, cn.user, cn.pw)
 	if !ok {
-		if closed, _ := cn.c.Closed(); closed {
+		if cn.c.WaitClosed(3 * time.Second) {
 			sc.lost(cn)
 			return false
 		}
-		sc.run.Inconclusive("no reply to join within the watchdog")
+		sc.run.Undecided("no reply to join within the watchdog")
 		sc.bad = true
 		return false
 	}
 	if reply.Str("kind") != "join" {
-		sc.run.Inconclusive(fmt.Sprintf("join of %s to %s refused: %v", cn.user, g, reply["value"]))
+		sc.run.Undecided(fmt.Sprintf("join of %s to %s refused: %v", cn.user, g, reply["value"]))
 		sc.bad = true
 		cn.ms = cn.ms[:len(cn.ms)-1]
 		return false
@@ -430,7 +430,7 @@ func (sc *scenario) join(cn *conn, g string) bool {
 			sc.lost(cn)
 			return false
 		}
-		sc.run.Inconclusive("no pong after a join within the watchdog")
+		sc.run.Undecided("no pong after a join within the watchdog")
 		sc.bad = true
 		return false
 	}
@@ -455,7 +455,7 @@ func (sc *scenario) leave(cn *conn) {
 			sc.lost(cn)
 			return
 		}
-		sc.run.Inconclusive("no reply to leave within the watchdog")
+		sc.run.Undecided("no reply to leave within the watchdog")
 		sc.bad = true
 		return
 	}
@@ -772,7 +772,7 @@ func (sc *scenario) checkpoint() bool {
 		return false
 	}
 	if !vclient.Quiesce(sc.live(), 3, 20*time.Millisecond, 40*time.Second) {
-		sc.run.Inconclusive("quiescence watchdog fired")
+		sc.run.Undecided("quiescence watchdog fired")
 		sc.bad = true
 		return false
 	}
@@ -807,7 +807,7 @@ func (sc *scenario) checkpoint() bool {
 					sc.violSend(cn.doomBy, "spoofer-not-disconnected", fmt.Sprintf("%s (really %q) sent a %s claiming source %v / username %v and its connection is still served afterwards",
 						cn.id, cn.user, cn.doomBy.Type, deref(cn.doomBy.Source), deref(cn.doomBy.User)))
 				} else {
-					sc.run.Inconclusive("a connection that forged its identity neither answers nor closes")
+					sc.run.Undecided("a connection that forged its identity neither answers nor closes")
 				}
 				cn.c.Close()
 			} else {
